@@ -29,7 +29,7 @@ ASSUMPTIONS = [
     "SAMI lang= attributes are two-letter codes (the reader keeps the first two characters)",
 ]
 
-CODES = ["en", "fr", "de", "es", "en-US", "fr-CA", "pt-BR", "zh-Hans", "ja", "it"]
+CODES = ["en", "fr", "de", "es", "en-US", "fr-CA", "pt-BR", "zh-Hans", "ja", "it", "br", "div"]   # (br = Breton, div = Dhivehi: also element names)
 
 
 def _codes(draw, n, allow_prefix=False):
@@ -360,7 +360,7 @@ def check_write(case, rec):
         for l in langs:
             cls_ = l["code"].lower()
             # the class the paragraphs use must be bound to the language by the style sheet
-            rule = doc["classes"].get(cls_) or {}
+            rule = doc["class_rules"].get(cls_) or {}      # a CLASS selector (.xx), not an element rule
             require((rule.get("lang") or "").lower() == l["code"].lower(),
                     lambda: f"sami: class .{cls_} is not declared with lang: {l['code']} in the style sheet "
                             f"(rules {doc['classes']})")
